@@ -798,12 +798,19 @@ func (cs *ContractSet) LoadContractFile(path, pkgPath string) error {
 				cur.ByteBV = rest == "bv"
 			}
 		case "pure":
-			if strings.HasPrefix(rest, "func ") {
-				sf, err := parseSpecFunc(strings.TrimPrefix(rest, "func "))
+			if strings.HasPrefix(rest, "func ") || strings.HasPrefix(rest, "named func ") {
+				// `pure named func`: kept as a function symbol with its definition
+				// (define-fun-rec) instead of being expanded at each use, so that its
+				// applications and their arguments are ground terms the solver can match on
+				named := strings.HasPrefix(rest, "named func ")
+				sf, err := parseSpecFunc(strings.TrimPrefix(strings.TrimPrefix(rest, "named "), "func "))
 				if err != nil {
 					return fmt.Errorf("%s:%d: %v", path, it.line, err)
 				}
 				sf.Pkg = pkgPath
+				if named {
+					sf.Rec = true
+				}
 				cs.Specs[sf.Name] = sf
 			} else if cur != nil {
 				cur.Pure = true
